@@ -5,7 +5,7 @@ from xdsl.context import Context
 from xdsl.dialects import builtin, scf
 from xdsl.dialects.builtin import IndexType, MemRefType
 from xdsl.dialects.linalg import GenericOp
-from xdsl.dialects.memref import CopyOp
+from xdsl.dialects.memref import AllocOp, CopyOp
 from xdsl.dialects.scf import ForOp
 from xdsl.ir import Block, Operation, Region, SSAValue
 from xdsl.irdl import Operand
@@ -75,6 +75,11 @@ class ConstructPipeline(RewritePattern):
             if dispatch_to_compute(op, self.ctx) or dispatch_to_dm(op, self.ctx):
                 return False
             if isinstance(op, ClusterSyncOp):
+                return False
+            # a buffer allocated in the loop body is a fresh buffer for every iteration. every stage of
+            # the unrolled pipeline runs its own copy of the index ops, so the stages of one iteration
+            # would no longer share that buffer
+            if isinstance(op, AllocOp):
                 return False
             return True
 
